@@ -36,6 +36,11 @@ VHosts == { <<Host>>, <<"Play.EXAMPLE.com">>, <<"play.example.com.">>,
             <<Host, "extra">>,              \* an unknown part (upstream hop)
             <<Host, "FML", "", "extra">>,
             <<"FORGE.example.com">>,        \* marker text inside the host itself
+            \* hosts that BEGIN with a marker string, sent by Forge clients (marker parts follow)
+            <<"FORGE.example.com", "FORGE">>, <<"FORGEcraft.net", "FORGE2">>,
+            <<"FML2host.example", "FML2", "">>, <<"FML3server.example.org", "FML3", "">>,
+            <<"FML.example.com", "FML", "">>,
+            <<"forge.example.com", "FORGE">>, <<"fml3.example", "FML3", "">>,
             <<"example.com///10.1.2.3:4567///1700000000">>,          \* TCPShield real-ip
             <<"example.com///10.1.2.3:4567///1700000000", "FML3", "">>,
             <<"", "FORGE">>,                \* empty host with a marker
